@@ -1058,9 +1058,23 @@ def ob_stochastic(shape, mat_type, form="band"):
     def exc_post(e, i):
         return isinstance(e, TypeError) and mat_type not in ("left", "right", "doubly")
     name = {"band": "nonnegative_and_sums_within_atol_true_negative_entry_or_sum_off_false", "birkhoff": "convex_combination_of_permutations_true"}[form]
+
+    def witness():
+        # clear-margin members of each class: columns sum to 1 but rows do not, its transpose, a doubly stochastic matrix,
+        # and a matrix with the right sums and one negative entry
+        if form != "band" or shape[0] != shape[1] or n < 2:
+            return []
+        L = np.full((n, n), 0.25 / max(n - 1, 1))
+        L[0, :] = 0.75
+        L[:, 0] = [0.5] + [0.5 / (n - 1)] * (n - 1)           # every column sums to 1, row 0 sums to more than 1
+        D = (np.eye(n) + np.roll(np.eye(n), 1, axis=0)) / 2
+        Ng = D.copy()
+        Ng[0, 0], Ng[0, 1 % n] = Ng[0, 0] + 0.75, Ng[0, 1 % n] - 0.75
+        Ng[1, 0], Ng[1, 1 % n] = Ng[1, 0] - 0.75, Ng[1, 1 % n] + 0.75
+        return [{"A": L}, {"A": L.T.copy()}, {"A": D}, {"A": Ng}]
     return Obligation("is_stochastic." + name, cfg, build, call, oracle, post=band_post, neg=band_neg, exc_post=exc_post, assume=pre,
                       valid=mk_valid(pre), max_paths=2 ** (shape[0] * shape[1] + 2) + 8, weight=20 if shape[0] * shape[1] > 6 and form == "band" else 1,
-                      neg_control=mat_type in ("left", "right", "doubly"), wall_cap_s=900)
+                      neg_control=mat_type in ("left", "right", "doubly"), wall_cap_s=900, witness=witness)
 
 
 # ----------------------------------------------------------------------------------------------
@@ -1247,9 +1261,20 @@ def ob_mub(m, d, kind, form, ket=False, extra=0):
     name = {"orthonormal_and_unbiased": "orthonormal_bases_unbiased_within_atol_true", "biased": "overlap_beyond_tolerance_false",
             "exact_qubit_xyz": "exact_by_construction_true", "not_orthonormal_by_margin": "bases_not_orthonormal_by_margin_false",
             "not_a_basis_family": "first_basis_repeats_a_vector_false", "count": "vector_count_not_multiple_of_dim_false"}[form]
+    def witness():
+        # two ORTHONORMAL bases of C^4 whose overlaps deviate from 1/4 only at (k, l) with l < k: the standard basis and the
+        # Fourier basis with rows 2, 3 rotated (c, s) = (0.8, 0.6) and coordinates 1, 2 exchanged; biased, so the verdict is False
+        if not (form == "biased" and d == 4 and m == 2 and not extra):
+            return []
+        F = np.array([[1j ** (a * c_) for c_ in range(4)] for a in range(4)]) / 2
+        R = F.copy()
+        R[2], R[3] = 0.8 * F[2] + 0.6 * F[3], -0.6 * F[2] + 0.8 * F[3]
+        R = R[:, [0, 2, 1, 3]]
+        E = np.eye(4, dtype=complex)
+        return [{"V": [E[k] for k in range(4)] + [R[k] for k in range(4)]}, {"V": [R[k] for k in range(4)] + [E[k] for k in range(4)]}]
     return Obligation("is_mutually_unbiased_basis." + name, cfg, build, call, oracle, post=band_post, neg=band_neg, assume=pre,
-                      valid=mk_valid(pre), max_paths=128, neg_control=not extra, mode="nra" if form == "exact_qubit_xyz" else "lra",
-                      tv=form != "exact_qubit_xyz")
+                      valid=mk_valid(pre), max_paths=128 if d < 4 else 400, neg_control=not extra, mode="nra" if form == "exact_qubit_xyz" else "lra",
+                      tv=form != "exact_qubit_xyz", witness=witness)
 
 
 # ----------------------------------------------------------------------------------------------
@@ -1327,8 +1352,13 @@ def ob_stochastic_transpose(n):
 
     def post(res, exp, i):
         return And(*[sb(r) for r in res])
+    def witness():
+        L = np.full((n, n), 0.25 / max(n - 1, 1))
+        L[0, :] = 0.75
+        L[:, 0] = [0.5] + [0.5 / (n - 1)] * (n - 1)           # columns sum to 1, rows do not
+        return [{"A": L}, {"A": L.T.copy()}] if n >= 2 else []
     return Obligation("is_stochastic.left_of_A_is_right_of_transpose", cfg, build, call, lambda i: [True], post=post, neg_control=False,
-                      tv=False, max_paths=4 ** (n * n + 2))
+                      tv=False, max_paths=4 ** (n * n + 2), witness=witness)
 
 
 
@@ -2097,6 +2127,7 @@ def obligations(tier):
             obs.append(ob_mub(m, d, kind, "orthonormal_and_unbiased"))
             obs.append(ob_mub(m, d, kind, "biased"))
     obs.append(ob_mub(2, 2, "c", "biased", ket=True))
+    obs.append(ob_mub(2, 4, "c", "biased"))          # dimension 4: the smallest where orthonormality does not force the remaining overlaps
     obs.append(ob_mub(1, 2, "c", "count", extra=1))
     obs.append(ob_mub(2, 2, "c", "count", extra=1))
     obs.append(ob_mub(0, 2, "c", "count", extra=1))
